@@ -148,6 +148,15 @@ func c07Families(tier string) []c07Family {
 	fs = append(fs, c07Ordered("col2", "ACGT-NRY", 2, 2, full))
 	// (2') lower-case residues (soft-masked regions): two columns over {A,C,g,t,a,-}, ordered
 	fs = append(fs, c07Ordered("lower2", "ACgta-", 2, 2, unw))
+	// (2b) the three-base ambiguity codes (their shares in the base frequencies): all 2x2 over {A,C,G,T,B,D,H,V}
+	fs = append(fs, c07Ordered("bdhv2", "ACGTBDHV", 2, 2, unw))
+	// (2c) blocks of 8 and 16 columns: every multiset of 9, 12 and 17 pair columns over {A/A, C/C, -/-, N/N, A/-, A/C}
+	// in type order - a run of columns identical in both rows, shared gaps and N among them, then the others
+	blockTypes := [][2]byte{{'A', 'A'}, {'C', 'C'}, {'-', '-'}, {'N', 'N'}, {'A', '-'}, {'A', 'C'}}
+	blockCfg := c07Cfgs([]string{"pdist", "rawdist", "jc", "k2p", "f81"}, []float64{0}, []int{0, 1, 2}, []bool{false, true}, []int{0})
+	for _, L := range []int{9, 12, 17} {
+		fs = append(fs, c07Lattice(fmt.Sprintf("blocks%d", L), blockTypes, L, blockCfg))
+	}
 	// (3) lattice: multisets of 3 pair columns over {A,C,G,T,-,N}
 	t6 := c07PairTypes("ACGT-N")
 	fs = append(fs, c07Lattice("lat3", t6, 3, full))
@@ -267,7 +276,7 @@ func init() {
 		Level: "exploration",
 		Rule: "Command line: goalign compute distance for the 7 nucleotide models x -r x --alpha 0.5 x -a x --gap-mut 0,1,2 (rawdist, pdist) x --rm-ambiguous (pdist) x -t 1,3 x --range1 0:1 --range2 1:2 on every 3x2 alignment over {A,C,-} and three larger ones, and for the 7 protein models x -r x --alpha 0.7 x -a on two protein alignments: what is printed must be the library matrix (average) for the same options, as printed with 12 decimals. " + "bounded-exhaustive exploration of the real dna.DistMatrix (models from dna.Model + SetCountGapMutations/SetRemoveAmbiguous) on a lattice of column types; every entry of every matrix is compared (1e-9 relative) with the harness's own textbook estimators, plus symmetry, zero diagonal, no-difference => 0, undefined => NaN/+Inf/2*max. " +
 			"Option space O (232 configurations) = rawdist x gap-mut {0,1,2} x rm-gaps; pdist x gap-mut x rm-gaps x rm-ambiguous; {jc,k2p,f81,f84,tn93} x gamma {off, alpha 0.5, 1, 2} x rm-gaps; all x weights {none, all 1, (1,2,3,..), (0.5,2,0.5,2,..)}. " +
-			"Alignments: (1) all 2x1 over the 15 IUPAC letters and '-' x O(unweighted) x {(cpus 1, no weights), (2, none), (1, all 1), (2, (1,2,..)), (1, (0.5,2,..))}; (2) all 2x2 over {A,C,G,T,-,N,R,Y} x O, and all 2x2 over {A,C,g,t,a,-} x O(unweighted) (a residue is the same nucleotide in lower case); (3) every multiset of 3 ordered pair columns over {A,C,G,T,-,N} x O; " +
+			"Alignments: (1) all 2x1 over the 15 IUPAC letters and '-' x O(unweighted) x {(cpus 1, no weights), (2, none), (1, all 1), (2, (1,2,..)), (1, (0.5,2,..))}; (2) all 2x2 over {A,C,G,T,-,N,R,Y} x O, and all 2x2 over {A,C,g,t,a,-} x O(unweighted) (a residue is the same nucleotide in lower case), all 2x2 over {A,C,G,T,B,D,H,V} x O(unweighted) (shares of the three-base codes in the base frequencies), every multiset of 9, 12 and 17 pair columns over {A/A,C/C,-/-,N/N,A/-,A/C} in type order x {pdist,rawdist,jc,k2p,f81} x gap modes x rm-gaps x rm-ambiguous (runs of identical columns with shared gaps, longer than an 8- or 16-column block); (3) every multiset of 3 ordered pair columns over {A,C,G,T,-,N} x O; " +
 			"(4) order-dependent internal-gap mode: all ordered 2xL over {A,C,-}, L=3..5 (thorough ..6) x {rawdist,pdist} x gap-mut x rm-gaps x weights {none,(1,2,..),(0.5,2,..)}, and over {A,C,-,N}, L=3 (thorough ..4) x the same x rm-ambiguous x weights {none,(0.5,2,..)}; " +
 			"(5) matrix level, M (42 configurations) = rawdist/pdist x gap-mut x rm-gaps, 5 corrected models x alpha {off,0.5,1} x rm-gaps: all 3x1 over {A,C,G,T,-,N} x M x V, all 3x2 over {A,C,G,T,-} x M x V[1,2,3,4,7], all 3x4 over {A,C} (pairs at exactly p=3/4 beside finite ones) x M x V[1..4], with V = {(no range, cpus 1), (no range, cpus 2, weights (1,2,..)), (ranges 0:0 vs 1:2), (overlapping 0:1 vs 1:2, cpus 2), (0:2 vs 0:2), (beyond the end 0:5 vs 1:7), (second before first 1:2 vs 0:1), (1:1 vs 1:1)}; all 7x1 over {A,C} x M x {3, 4, 5 workers; ranges 0:5 vs 1:6 with 4 workers} (more rows than workers); thorough adds all 3x3 over {A,C,G,-} x M x {(no range), (0:1 vs 1:2, cpus 2, weights)}, all 4x1 over {A,C,G,T,-} x M x 5 four-row variants, all 4x2 over {A,C,G,-} x M x {(no range), (0:2 vs 1:3, cpus 2)}; " +
 			"(6) every multiset of 4 pair columns over {A,C,G,T,-,N} x (quick: unweighted, alpha {off,1}: 38 configurations; thorough: O); thorough also 5 columns x the 38 and 3 columns over {A,C,G,T,-,N,R,Y} x O; " +
